@@ -116,7 +116,7 @@ def run_forever_paths(ctx, reconnect=0, prior_errored=False, scenario_filter=Non
             # what the per-run fields hold at the moment the first connection of this run is built
             app = next(c for a, c in run.heap.items() if getattr(c, "label", "") == "app")
             run.effect("app-fields-at-construct", tuple(app.fields.get(k, NONE) for k in sorted(stale_fields)), node=node)
-        return new_obj(run, None, "appsock", sock=Sym("rawsock", "obj"), connected=TRUE)
+        return new_obj(run, None, "appsock", sock=Sym("rawsock", "obj"), connected=FALSE)   # connected only once connect() succeeded
 
     def connect(I, run, args, kwargs, node):
         run.effect("appsock.connect", (), node=node)
@@ -125,6 +125,8 @@ def run_forever_paths(ctx, reconnect=0, prior_errored=False, scenario_filter=Non
             raise_exc(I, run, "builtins.ConnectionRefusedError", node)
         if ch == 2:
             raise_exc(I, run, "builtins.TimeoutError", node)
+        if args and isinstance(args[0], Ref):
+            run.cell(args[0]).fields["connected"] = TRUE
         return NONE
 
     def disp_read(I, run, args, kwargs, node):
@@ -398,6 +400,23 @@ def r5(ctx):
                f"run ending by {key} returns {bad[0][1].value!r} with on_error calls {[repr(e.args[1:]) for e in bad[0][2]]}: "
                + ("run_forever must return False and report no error for a run that simply ended" if not key.startswith("error") else "the result must be True exactly when on_error fired"),
                loc, {"path": path_text(bad[0][1], 10)} if bad else None)
+    # runs that reconnect: whatever happens on later connections, the result is True exactly when on_error fired during the run
+    # (an error followed by a successful reconnect and a clean end is still an error that was reported)
+    Ir, outs_r = run_forever_paths(ctx, reconnect=5)
+    nr = 0
+    badr = None
+    for o in outs_r:
+        if o.kind != "return" or len([e for e in o.effects if e.name == "WebSocket()"]) < 2:
+            continue
+        nr += 1
+        errs = [e for e in o.effects if e.name == "on_error"]
+        if (o.value == TRUE) != bool(errs):
+            badr = badr or (o, errs)
+    if nr == 0:
+        raise AnalysisError("no returning run with a reconnect explored")
+    ctx.ob(f"{RF}:result:reconnecting-runs:flag-iff-on_error", badr is None, f"{nr} runs with at least one reconnect" if badr is None else
+           f"a run that reported {len(badr[1])} error(s) through on_error, reconnected and then ended returns {badr[0].value!r}: the result must be True exactly when an error "
+           f"was reported during the run (a successful reconnect does not take the report back)", loc, {"path": path_text(badr[0], 14)} if badr else None)
     # second run after a failed first run
     I2, outs2 = run_forever_paths(ctx, reconnect=0, prior_errored=True)
     bad = None
@@ -561,3 +580,9 @@ def r_sib_r_c14_11(ctx):
     from .c16 import r5 as ping_thread_lifecycle
     ping_thread_lifecycle(ctx)
 
+
+
+@rule("R-C14-12", min_instances=3, title="teardown cannot hang on a silent peer: WebSocket.close(), which it calls, bounds its wait for the peer's close frame on every socket-timeout configuration (a blocking socket included)")
+def r_sib_r_c14_12(ctx):
+    from .c08 import r7 as bounded_wait
+    bounded_wait(ctx)
